@@ -7,6 +7,7 @@ mod pipe;
 mod sexp;
 mod suites;
 mod val;
+mod vtime;
 
 use std::io::{self, BufRead, Write};
 use std::panic::{catch_unwind, AssertUnwindSafe};
@@ -51,7 +52,7 @@ impl Out {
 
 fn run_case(case: &Case, out: &mut Out) {
   match case.suite.as_str() {
-    "pipe" => suites::pipe_suite::run(case, out),
+    "pipe" | "time" => suites::pipe_suite::run(case, out),
     s => panic!("unknown suite {}", s),
   }
 }
